@@ -105,6 +105,16 @@ func (tb *ATable) RegisterPropertyCallback(
 
 	// TODO: handle _time_ sanity checks, too; warn if would never be invoked.
 
+	// A rendering wrapper (anything else satisfying Table which is built
+	// around this table) may be named as the owner; it stands for the table.
+	if _, isCore := owner.(*ATable); !isCore {
+		if wrapper, ok := owner.(Table); ok {
+			if c0 := wrapper.Column(0); c0 != nil && c0.ofTable == tb {
+				owner = tb
+			}
+		}
+	}
+
 	switch base := owner.(type) {
 	case *ATable:
 		switch target {
